@@ -315,6 +315,9 @@ def c22(ck, F, tier):
         "quote-doubling escape and the lexer's un-escape are inverse constants. The column-letter arithmetic is not decided.")
     ck.rule("QUOTE", "characters the lexer cannot read unquoted trigger quoting (all code points by class)", floor=40, exhaustive=True)
     guarded(ck, rq.quote_rule, F)
+    import rules_struct as rs_
+    ck.rule("FULL-RANGE", "the reference printer accepts every row and column of the grid", floor=0)
+    guarded(ck, rs_.grid_bounds, F)
 
 
 def c09(ck, F, tier):
@@ -344,6 +347,7 @@ def c09(ck, F, tier):
     guarded(ck, rs_.full_flags, F)
     import rules_paren as rp_
     guarded(ck, rp_.ident_case, F)
+    guarded(ck, rs_.grid_bounds, F)
 
 
 def c16(ck, F, tier):
@@ -382,6 +386,7 @@ def _struct_common(ck, F, which):
     guarded(ck, rs.full_range_guard, F)
     ck.rule("REF-SHEET", "displaced references carry their node's sheet index", floor=4)
     guarded(ck, rs.ref_sheet, F)
+    guarded(ck, rs.axis_flags, F)
     ck.rule("STYLE-LAST", "move_cell copies the source style after every re-entry of the content", floor=2)
     guarded(ck, rs.style_last, F)
     import rules_attr as ra_
